@@ -2,7 +2,6 @@ package gen
 
 import (
 	"pgregory.net/rapid"
-	"strings"
 )
 
 // RapidChooser draws every decision through rapid, so failures shrink.
@@ -53,13 +52,33 @@ type RandomLayout struct {
 	Comments, Conts, Linebreaks bool
 }
 
-var commentTexts = []string{EmptyComment, " caf\u00e9\u0301 \uFFFD \U0001F600\u00a0", " cr\r", " c", "x", " note: a;b|c", " é 日", "!", " # nested #", " 'q' \"d\" $x `c`", "  two  blanks", " ends in \\", "\\", " a\\b \\"}
+var commentTexts = []string{EmptyComment, " caf\u00e9\u0301 \uFFFD \U0001F600\u00a0", " cr\r", " c", "x", " note: a;b|c", " é 日", "!", " # nested #", " 'q' \"d\" $x `c`", "  two  blanks", " ends in \\", "\\", " a\\b \\",
+	" esc \\` x", "\\`", " two \\\\", " three \\\\\\` y"}
+
+// CommentOKInBackquotes: inside backquotes an unescaped backquote ends the
+// substitution, also in a comment, and a backslash in front of the closing
+// backquote would escape it. What is left are the texts in which every
+// backquote is escaped (an odd number of backslashes in front of it) and
+// which do not end in an odd number of backslashes.
+func CommentOKInBackquotes(c string) bool {
+	run := 0
+	for _, r := range c {
+		if r == '\\' {
+			run++
+			continue
+		}
+		if r == '`' && run%2 == 0 {
+			return false
+		}
+		run = 0
+	}
+	return run%2 == 0
+}
 
 var commentTextsBq = func() []string {
 	var out []string
 	for _, c := range commentTexts {
-		// (nor may the comment end in a backslash there: it would escape the closing backquote)
-		if !strings.Contains(c, "`") && !strings.HasSuffix(c, `\`) {
+		if CommentOKInBackquotes(c) {
 			out = append(out, c)
 		}
 	}
